@@ -214,6 +214,58 @@ static Elem random_route(const Elem& e, Rng& rng) {
   return Elem(route_poly(POLY_ROUTES[rng.below(sizeof(POLY_ROUTES) / sizeof(char*))], *e.p, seed));
 }
 
+
+// ---- the EMPTY set in every emptiness state:  newe <id> <D> <dim> <state> <seed>
+//   marked | addc (inconsistent rows through add_*, never queried) | refine | cons (constructor from the inconsistent
+//   system) | meet (intersection of two disjoint non-empty objects) | queried (addc, then is_empty()) |
+//   minq (addc, then minimized_*()) | pend (polyhedra: minimized non-empty object, inconsistent constraint pending)
+static Grid empty_grid(unsigned dim, const std::string& st, unsigned long seed) {
+  Rng rng(seed);
+  if (st == "marked" || dim == 0) return Grid(dim, EMPTY);
+  unsigned v = rng.below(dim);
+  std::vector<Congruence> ord, bad;
+  for (unsigned i = 0; i < dim; ++i) { if (i == v || rng.below(3) == 0) continue;
+    long m = 2 + (long) rng.below(4), b = (long) rng.below(4);
+    if (rng.below(3) == 0) ord.push_back(Congruence(Variable(i) == b)); else ord.push_back((Variable(i) - b %= 0) / m); }
+  long a = (long) rng.below(5) - 1; unsigned k = rng.below(3);
+  if (k == 0) { bad.push_back(Congruence(Variable(v) == a)); bad.push_back(Congruence(Variable(v) == a + 1)); }
+  else if (k == 1) { bad.push_back((Variable(v) - a %= 0) / 2); bad.push_back((Variable(v) - a - 1 %= 0) / 2); }
+  else { bad.push_back((Variable(v) %= 0) / 3); bad.push_back(Congruence(Variable(v) == 3 * a + 1)); }
+  if (st == "cons") { Congruence_System cs(dim); for (size_t i = 0; i < ord.size(); ++i) cs.insert(ord[i]); for (size_t i = 0; i < bad.size(); ++i) cs.insert(bad[i]); return Grid(cs); }
+  if (st == "meet") { Grid p(dim), q(dim); for (size_t i = 0; i < ord.size(); ++i) { p.add_congruence(ord[i]); q.add_congruence(ord[i]); }
+    p.add_congruence(bad[0]); q.add_congruence(bad[1]); p.intersection_assign(q); return p; }
+  Grid p(dim);
+  if (st == "refine") { for (size_t i = 0; i < ord.size(); ++i) p.refine_with_congruence(ord[i]); for (size_t i = 0; i < bad.size(); ++i) p.refine_with_congruence(bad[i]); return p; }
+  if (st == "pend") { for (size_t i = 0; i < ord.size(); ++i) p.add_congruence(ord[i]); p.add_congruence(bad[0]); (void) p.minimized_grid_generators(); p.add_congruence(bad[1]); return p; }
+  for (size_t i = 0; i < ord.size(); ++i) p.add_congruence(ord[i]); for (size_t i = 0; i < bad.size(); ++i) p.add_congruence(bad[i]);
+  if (st == "addc") return p;
+  if (st == "queried") { (void) p.is_empty(); return p; }
+  if (st == "minq") { (void) p.minimized_congruences(); return p; }
+  throw std::runtime_error("case: unknown emptiness state " + st);
+}
+static C_Polyhedron empty_cpoly(unsigned dim, const std::string& st, unsigned long seed) {
+  Rng rng(seed);
+  if (st == "marked" || dim == 0) return C_Polyhedron(dim, EMPTY);
+  unsigned v = rng.below(dim);
+  std::vector<Constraint> ord, bad;
+  for (unsigned i = 0; i < dim; ++i) { if (i == v || rng.below(3) == 0) continue;
+    long lo = (long) rng.below(6) - 3, hi = lo + (long) rng.below(5); ord.push_back(Variable(i) >= lo); if (rng.below(4)) ord.push_back(Variable(i) <= hi); }
+  long a = (long) rng.below(7) - 2;
+  if (rng.below(3) == 0) { bad.push_back(Variable(v) == a); bad.push_back(Variable(v) == a + 1); }
+  else { bad.push_back(Variable(v) >= a + 1 + (long) rng.below(3)); bad.push_back(Variable(v) <= a); }
+  if (st == "cons") { Constraint_System cs; cs.set_space_dimension(dim); for (size_t i = 0; i < ord.size(); ++i) cs.insert(ord[i]); for (size_t i = 0; i < bad.size(); ++i) cs.insert(bad[i]); return C_Polyhedron(cs); }
+  if (st == "meet") { C_Polyhedron p(dim), q(dim); for (size_t i = 0; i < ord.size(); ++i) { p.add_constraint(ord[i]); q.add_constraint(ord[i]); }
+    p.add_constraint(bad[0]); q.add_constraint(bad[1]); p.intersection_assign(q); return p; }
+  C_Polyhedron p(dim);
+  if (st == "refine") { for (size_t i = 0; i < ord.size(); ++i) p.refine_with_constraint(ord[i]); for (size_t i = 0; i < bad.size(); ++i) p.refine_with_constraint(bad[i]); return p; }
+  if (st == "pend") { for (size_t i = 0; i < ord.size(); ++i) p.add_constraint(ord[i]); p.add_constraint(bad[0]); (void) p.minimized_generators(); p.add_constraint(bad[1]); return p; }
+  for (size_t i = 0; i < ord.size(); ++i) p.add_constraint(ord[i]); for (size_t i = 0; i < bad.size(); ++i) p.add_constraint(bad[i]);
+  if (st == "addc") return p;
+  if (st == "queried") { (void) p.is_empty(); return p; }
+  if (st == "minq") { (void) p.minimized_constraints(); return p; }
+  throw std::runtime_error("case: unknown emptiness state " + st);
+}
+
 // ---- powersets
 typedef Pointset_Powerset<Grid> GPS;
 typedef Pointset_Powerset<C_Polyhedron> PPS;
@@ -266,6 +318,11 @@ int main(int argc, char** argv) {
               else throw std::runtime_error("case: bad new");
             }
             std::cout << "res new ok\n"; print_elem("st", id, get(id));
+          }
+          else if (cmd == "newe") {
+            int id = tk.nextl(); std::string D = tk.next(); unsigned dim = tk.nextl(); std::string st = tk.next(); unsigned long seed = tk.nextl();
+            if (D == "G") pool[id] = Elem(empty_grid(dim, st, seed)); else pool[id] = Elem(empty_cpoly(dim, st, seed));
+            std::cout << "res newe ok\n"; print_elem("st", id, get(id));
           }
           else if (cmd == "mk") {
             int id = tk.nextl(); std::string route = tk.next(); int src = tk.nextl(); unsigned long seed = tk.nextl();
